@@ -75,6 +75,7 @@ func main() {
 		"plaintext lengths up to 6 chunks (400 000 bytes); unbounded sizes are not explored",
 		"the plaintext reader is consumed by Read loops with 8 buffer sizes, by io.Copy into a plain Writer (uses a WriteTo of the reader if there is one) and by io.ReadAll",
 		"a result that differs from the baseline under every delivery schedule it was run with is reported once with sched=* (the cause is then the consumption mode / buffer / handed-in bufio, not the schedule)",
+		"CLI output stage: printable LF-only UTF-8 texts through a pty (CR stripped), -o -, a pipe and -o FILE; a differing route is a violation only if the pipe route and the shifted control succeed, every run is retried once",
 		"optional interfaces (ByteReader, RuneReader, ByteScanner, WriterTo, ReaderAt, Seeker / StringWriter, ByteWriter, ReaderFrom) are discovered by type assertion on every returned value; one that is absent is recorded, not judged",
 		"consumer kinds over armor.NewReader (bufio ReadByte/ReadString/Peek/WriteTo/Read, Scanner, ReadFull blocks, 1-byte CopyBuffer, iotest.OneByteReader) run under the schedules whole, 1byte, random, bufio16over1byte",
 		"age.Decrypt over armor is also compared with age.Decrypt over the bytes (and error) plain de-armoring releases",
@@ -147,6 +148,7 @@ func main() {
 		r.Inconclusive("no hold-back check was binding (no plaintext longer than one chunk)")
 	}
 	cliStage(r)
+	cliOutputStage(r)
 	r.Finish()
 }
 
